@@ -1,7 +1,7 @@
 #!/bin/sh
 # tools/refactor_check.sh [names...]: every archived behaviour-preserving refactoring against every check, in memory
-cd /verif
-mkdir -p /tmp/rf
+cd "$(dirname "$0")/.."
+mkdir -p ${TMPDIR:-/tmp}/rf
 for d in refactors/*/; do a=$(basename $d); for f in $d/refactor_*.diff; do k=$(basename $f .diff | sed 's/refactor_//'); 
   [ -n "$1" ] && ! echo " $@ " | grep -q " $a-$k " && continue
-  tools/patch_check.py $f > /tmp/rf/$a-$k.log 2>&1; echo "rf-$a-$k: $(tail -1 /tmp/rf/$a-$k.log | sed 's/.*result: //')"; done; done
+  tools/patch_check.py $f > ${TMPDIR:-/tmp}/rf/$a-$k.log 2>&1; echo "rf-$a-$k: $(tail -1 ${TMPDIR:-/tmp}/rf/$a-$k.log | sed 's/.*result: //')"; done; done
